@@ -13,21 +13,29 @@ COQ_SHARD = 250
 DESIGN_REF = "§5 C15"
 TECHNIQUE = ("Coq proof (byte-level codecs, tuple layout, builder and comparison of go/store/val; round-trip, order and canonical-form "
              "theorems for every value) + regenerated size/shift constants + in-Coq correspondence on tuples built by the real TupleBuilder")
-LEVEL_TEXT = ("Proof (F/M): for every encoding of the model (int8..int64, uint8..uint64, bit64, enum, set, year, date, time, datetime, "
-              "decimal, string, bytes, hash128, address, cell, inline adaptive) decode(encode v) = v and compare(encode a, encode b) = SQL "
-              "order of a and b are proved for every value of the domain; NewTuple/GetField/Count are proved to read back every field of "
-              "every row within the size limits, rows equal up to trailing NULLs are proved to have identical bytes (and conversely), and "
-              "tuple comparison is proved to be the field-by-field order with NULL first. Floats are compared on bit patterns in the "
-              "correspondence only. 'Byte-identical no matter how built' is refuted for adaptive values supplied out of band to a small "
-              "tuple (F9, API level).")
+LEVEL_TEXT = ("Proof (F/M): for every encoding of the model (int8..int64, uint8..uint64, float32/64, bit64, enum, set, year, date, time, "
+              "datetime, decimal, string, bytes, hash128, address, cell, inline adaptive) decode(encode v) = v and compare(encode a, encode b) = SQL "
+              "order of a and b are proved for every value of the domain; for floats the bit-pattern comparison is proved to be the order of "
+              "the numeric values for all non-NaN patterns (-0 = +0, subnormals, infinities), with NaN as implemented (answer 1, not an order); "
+              "decimal comparison is the order of the exact values c*10^e. NewTuple/GetField/Count read back every field of every row within "
+              "the size limits; rows equal up to trailing NULLs have identical bytes (and conversely); tuple comparison is the field-by-field "
+              "order with NULL first. oracle_on_model: the executable statement of the property holds of the model (builder with adaptive "
+              "normalisation, read-back through the value store, comparison, canonical form) on every well-formed input outside the F9 class. "
+              "'Byte-identical no matter how built' is refuted for adaptive values supplied out of band to a small tuple (F9, API level).")
 LEVEL_NOTE = ("Trusted: Coq kernel, translator (sizes/shifts/limits), Go harness + Python glue. Modelled, not verified: Go's integer "
               "conversions (two's complement), encoding/binary, time.Date calendar arithmetic (dates are year/month/day triples), apd.Decimal "
-              "Cmp (modelled as exact numeric comparison), IEEE comparison of floats (modelled on bit patterns, not part of the theorems), "
-              "the content-addressed value store (an oracle address -> content fed from the implementation), collations and extended "
-              "(Doltgres) handlers (outside the model).")
-THEOREMS = ["dec_enc", "cmp_enc", "tuple_roundtrip", "tuple_count", "new_tuple_canonical", "new_tuple_drops_trailing_nulls",
+              "Cmp (modelled as exact numeric comparison), Go's ==/< on floats (modelled on bit patterns: sign-magnitude key, NaN unordered), "
+              "the content-addressed value store (an oracle address -> content fed from the implementation). Encodings of val.Encoding not "
+              "separately modelled: JSONEnc and GeometryEnc (legacy; same writeByteString/readByteString codec as ByteStringEnc, and compare() "
+              "has no case for them: it panics 'unknown encoding'); BytesAddr/StringAddr/JSONAddr/GeomAddr/CommitAddr are all the 20-byte EAddr; "
+              "GeomAdaptiveEnc is the adaptive codec with byte comparison; JsonAdaptiveEnc compares as JSON documents (C17); ExtendedEnc / "
+              "ExtendedAddrEnc / ExtendedAdaptiveEnc delegate to Doltgres type handlers (outside the model); collations (CollationTupleComparator) "
+              "are outside the model. The SQLite4 varint only prefixes out-of-band adaptive values and is never compared for order, so its "
+              "lexicographic order is not needed (not proved).")
+THEOREMS = ["dec_enc", "cmp_enc", "float_compare_value", "cmp_enc_float32", "cmp_enc_float64", "float_compare_nan",
+            "decimal_compare_scale_invariant", "tuple_roundtrip", "tuple_count", "new_tuple_canonical", "new_tuple_drops_trailing_nulls",
             "new_tuple_injective", "tuple_compare_spec", "build_plain_is_new_tuple", "build_repr_independent_partial",
-            "build_repr_independent_refuted", "consts_pinned"]
+            "vi_roundtrip", "oracle_on_model", "build_repr_independent_refuted", "consts_pinned"]
 REFUTED = ["build_repr_independent_refuted"]
 RULE = ("tuple descriptors of 1-12 columns over all modelled encodings with random nullability, two rows per case (second row = "
         "perturbation of the first: equal, one field changed, trailing NULLs added/removed, or independent); values are boundary values "
